@@ -1381,6 +1381,7 @@ func main() {
 		ops = append(ops, "rot 5", "dump", "clear", "dump", "front", "at 0", "pb 1", "pb 2", "rot 1", "dump", "popf", "popf", "popf")
 		dequeCase(r, ops)
 	}
+	trLeg(r) // tr.go: the translated index arithmetic against the real functions
 	// --- deque: every ring offset × length × op
 	if r.Thorough() {
 		all := func(n int) []int {
